@@ -329,7 +329,13 @@ func (c *Ctx) checkConstantTables() {
 			ast.Inspect(&ast.BlockStmt{List: cc.Body}, func(n2 ast.Node) bool {
 				if call, ok := n2.(*ast.CallExpr); ok {
 					if sel, ok := call.Fun.(*ast.SelectorExpr); ok && sel.Sel.Name == w[0] {
-						if tv, ok := info.Types[call]; ok {
+						if tv, ok := info.Types[call]; ok && gotT == "" {
+							gotT = tv.Type.String()
+						}
+					}
+					// what is actually handed to the tensor constructor decides the element type
+					if sel, ok := call.Fun.(*ast.SelectorExpr); ok && (sel.Sel.Name == "FromScalar" || sel.Sel.Name == "WithBacking") && len(call.Args) == 1 {
+						if tv, ok := info.Types[call.Args[0]]; ok {
 							gotT = tv.Type.String()
 						}
 					}
